@@ -117,6 +117,15 @@ Theorem C05_sync_counters_prefix_refuted :
 Proof. exact sync_counters_prefix_refuted. Qed.
 Print Assumptions C05_sync_counters_prefix_refuted.
 
+Theorem C05_cache_status_leak_prefix_refuted :
+  exists w1 w2,
+    sync_job_prefix leak_world UPendingSync [FStatus 1] = (w1, true, true) /\
+    v_pods w1 = w_pods w1 /\ v_st w1 <> w_st w1 /\
+    sync_job_prefix w1 URunningSync [] = (w2, false, false) /\
+    partition_ok (w_st w2) (w_pods w2) = false /\ st_cnt (w_st w2) = c0 /\ length (w_pods w2) = 1%nat.
+Proof. exact cache_status_leak_prefix_refuted. Qed.
+Print Assumptions C05_cache_status_leak_prefix_refuted.
+
 (* counters, positive part (syncJob path, code after the two fixes): a successful
    reconcile with an admitted PodGroup and a fresh pod view writes / leaves on the
    API server counters that partition exactly the pods that exist there:
